@@ -154,6 +154,20 @@ static std::string genRefText(vh::Rng& rng) {
   return out;
 }
 
+// several renamed references in one text, separated by (possibly empty) runs of multi-byte symbols: positions are counted
+// in code points and the replacement is done on bytes, names grow or shrink (seeded change C08-3: one forward pass with a
+// byte offset applied to code-point positions)
+static std::string genDenseRefText(vh::Rng& rng) {
+  std::string out = rng.pick(SV{ "", "\xD0\x96", "a", "\xE2\x80\x94 " });
+  const int n = rng.range(2, 5);
+  for (int i = 0; i < n; ++i) {
+    out += "@{" + rng.pick(SV{ "X1", "X1", "X11", "D1", "X2" }) + "|" + rng.pick(REF_TAGS) + "}";
+    const int seps = rng.range(0, 3);
+    for (int k = 0; k < seps; ++k) out += rng.pick(SV{ "\xD0\x96", "\xE2\x80\x94", "\xC2\xAB", "\xC2\xBB", "\xF0\x9F\x98\x80", " ", ",", "\xE2\x88\xAA" });
+  }
+  return out;
+}
+
 static std::string mutateBytes(vh::Rng& rng, std::string s) {
   const int k = rng.range(1, 3);
   for (int i = 0; i < k; ++i) {
@@ -421,9 +435,17 @@ int main() {
       for (const auto& t : TEXTS) { oneRefs(t, one, false); oneRefs(t, one, true); }
       const int NR = deep ? 8000 : 800;
       for (int i = 0; i < NR; ++i) {
-        const auto text = genRefText(sub);
+        const bool dense = i % 3 == 0;
+        const auto text = dense ? genDenseRefText(sub) : genRefText(sub);
         StrSubstitutes m;
-        const int shape = sub.range(0, 3);
+        const int shape = dense ? 4 : sub.range(0, 3);
+        if (shape == 4) {
+          m["X1"] = sub.pick(SV{ "X10", "X1234567", "X", "X11", "C1", "X100" });
+          if (sub.chance(1, 2)) m["X11"] = sub.pick(SV{ "X1", "X3", "X111111" });
+          if (sub.chance(1, 2)) m["D1"] = sub.pick(SV{ "D", "D1000" });
+          oneRefs(text, m, false); oneRefs(text, m, true);
+          continue;
+        }
         if (shape == 0) { m["X1"] = "X11"; m["X11"] = "X1"; }
         else if (shape == 1) { m["X1"] = "X2"; m["X2"] = "X3"; }
         else if (shape == 2) { m[sub.pick(SV{ "X1", "X11", "D1", "x1" })] = sub.pick(NEWNAMES); }
